@@ -99,6 +99,61 @@ h!(c05_q_guard_every_cancellation_point, 8, {
     kani::cover!(k == n + 1, "dropped right after completion");
 });
 
+// (a harness with a guarded section nested inside another guarded section was tried: the two levels
+// of `Box<dyn Future>` make CBMC unroll every `poll` implementation at every dynamic call; no
+// answer in 25 minutes even with concrete suspension counts.  Not part of the claim.)
+
+// other output type, suspension points fixed per instance, cancellation point symbolic
+macro_rules! guard_inst {
+    ($name:ident, $n:expr) => {
+        h!($name, 8, {
+            struct S2 { remaining: u8, val: (u64, bool) }
+            impl Future for S2 {
+                type Output = (u64, bool);
+                fn poll(mut self: Pin<&mut Self>, _cx: &mut Context<'_>) -> Poll<(u64, bool)> {
+                    unsafe { assert!(QV5_COMPLETED == 0, "inner future polled after it completed"); QV5_POLLS += 1; }
+                    if self.remaining == 0 { unsafe { QV5_COMPLETED += 1; } Poll::Ready(self.val) } else { self.remaining -= 1; Poll::Pending }
+                }
+            }
+            let k: u8 = kani::any();
+            let val: (u64, bool) = kani::any();
+            kani::assume(k <= $n + 2);
+            let mut g = S2 { remaining: $n, val }.guarded();
+            let mut cx = Context::from_waker(Waker::noop());
+            let mut got = None;
+            let mut i = 0;
+            while i < k {
+                if got.is_some() { break; }
+                if let Poll::Ready(v) = Pin::new(&mut g).poll(&mut cx) { got = Some(v); }
+                i += 1;
+            }
+            drop(g);
+            unsafe {
+                assert!(QV5_COMPLETED == 1 && QV5_POLLS == $n + 1, "runs to completion exactly once, polled exactly until it completes");
+                assert!((QV5_SPAWNED == 1) == (k <= $n), "spawned iff dropped before completion");
+                assert!(got.is_none() || got == Some(val), "the value is forwarded unchanged");
+            }
+            kani::cover!(k <= $n, "dropped before completion");
+            kani::cover!(k > $n, "completed under the caller");
+        });
+    };
+}
+guard_inst!(c05_q_guard_pair_output_n0, 0);
+guard_inst!(c05_q_guard_pair_output_n2, 2);
+guard_inst!(c05_t_guard_pair_output_n3, 3);
+
+/// the documented misuse: polling a guard again after it completed panics (and does not re-run anything)
+#[kani::proof]
+#[kani::unwind(4)]
+#[kani::should_panic]
+fn c05_q_guard_poll_after_completion_panics() {
+    let mut g = Steps { remaining: 0, val: 1 }.guarded();
+    let mut cx = Context::from_waker(Waker::noop());
+    let first = Pin::new(&mut g).poll(&mut cx);
+    assert!(matches!(first, Poll::Ready(1)));
+    let _ = Pin::new(&mut g).poll(&mut cx); // "Guard polled after completion"
+}
+
 // (CalleeOrder — provisional callee registration and its undo — was extracted and driven as well,
 // but every variant, including a fully case-split single abort on a concrete prefix, ran CBMC out
 // of memory: 32-byte QueryIDs inside nested enum/option/array values defeat constant propagation.
